@@ -75,16 +75,28 @@ func (t *taskState) unmarshalOp(i int, po *prepOp) {
 		out := reflect.New(po.ti.T)
 		err := p.Unmarshal(in, out.Interface())
 		t.checkDecoded(i, po, out, err)
-		if err == nil && po.twinVal.IsValid() && t.x.prop == "C19" {
-			// interning must be transparent: same data as the twin type without the option
-			if a, b := world.Dump(out.Elem()), world.Dump(po.twinVal); a != b {
-				t.fail(i, po, "mismatch", "decoded value differs from the non-interned twin's decode "+world.DiffDump(a, b))
+		var twin reflect.Value
+		if t.x.prop == "C19" && po.ti.Twin != "" {
+			// interning must be transparent: the same bytes, from the same buffer,
+			// through the same instance, into the twin type without the option
+			twin = reflect.New(typeInfo(po.ti.Twin).T)
+			terr := p.Unmarshal(in, twin.Interface())
+			if errText(terr) != errText(err) {
+				t.fail(i, po, "error-mismatch", fmt.Sprintf("with interning the decode gives error %q, without %q", errText(err), errText(terr)))
+			} else if err == nil {
+				if ok, path := world.DiffInterned(out.Elem(), twin.Elem()); !ok {
+					t.fail(i, po, "mismatch", "interned field decodes differently from the same field without the option: "+path)
+				}
 			}
 		}
 		if err == nil && po.op.Hold {
 			// what must never change later is the value as it was when Unmarshal
 			// returned: an independent deep copy taken right now
-			t.live = append(t.live, liveVal{ptr: out, exp: world.Clone(out.Elem()), op: i})
+			lv := liveVal{ptr: out, exp: world.Clone(out.Elem()), op: i}
+			if twin.IsValid() {
+				lv.twin, lv.twinExp = twin, world.Clone(twin.Elem())
+			}
+			t.live = append(t.live, lv)
 		}
 	}
 	if string(in) != string(po.data) {
@@ -193,6 +205,18 @@ func (t *taskState) reuseDecodeTwin(i int, po *prepOp, in []byte) {
 	tt := typeInfo(po.ti.Twin).T
 	tgt, ok := t.targets[slot]
 	twin, ok2 := t.twins[slot]
+	if ok && ok2 {
+		// a twin that changed by itself since the last decode (strings aliasing a
+		// buffer that was re-used: C11's business) is no reference any more
+		for _, lv := range t.live {
+			if lv.slot == slot && lv.twin.IsValid() {
+				if same, _ := world.Equal(lv.twin.Elem(), lv.twinExp); !same {
+					ok = false
+					t.probe("other_property:twin_target_changed_between_decodes")
+				}
+			}
+		}
+	}
 	if !ok || !ok2 || tgt.Type().Elem() != po.ti.T {
 		tgt, twin = reflect.New(po.ti.T), reflect.New(tt)
 		t.targets[slot], t.twins[slot] = tgt, twin
@@ -200,7 +224,7 @@ func (t *taskState) reuseDecodeTwin(i int, po *prepOp, in []byte) {
 		t.probe("target_reused")
 	}
 	err1 := p.Unmarshal(in, tgt.Interface())
-	err2 := p.Unmarshal(append([]byte(nil), po.data...), twin.Interface())
+	err2 := p.Unmarshal(in, twin.Interface())
 	if errText(err1) != errText(err2) {
 		t.fail(i, po, "error-mismatch", fmt.Sprintf("with interning the decode gives error %q, without %q", errText(err1), errText(err2)))
 	}
@@ -209,8 +233,8 @@ func (t *taskState) reuseDecodeTwin(i int, po *prepOp, in []byte) {
 		delete(t.twins, slot)
 		return
 	}
-	if a, b := world.Dump(tgt.Elem()), world.Dump(twin.Elem()); a != b {
-		t.fail(i, po, "mismatch", "after the same history of decodes into re-used targets the interned type and its twin differ "+world.DiffDump(a, b))
+	if ok, path := world.DiffInterned(tgt.Elem(), twin.Elem()); !ok {
+		t.fail(i, po, "mismatch", "after the same history of decodes into re-used targets an interned field differs from the same field without the option: "+path)
 		delete(t.targets, slot)
 		delete(t.twins, slot)
 		return
@@ -222,7 +246,7 @@ func (t *taskState) reuseDecodeTwin(i int, po *prepOp, in []byte) {
 			live = append(live, lv)
 		}
 	}
-	t.live = append(live, liveVal{slot: slot, ptr: tgt, exp: world.Clone(tgt.Elem()), op: i})
+	t.live = append(live, liveVal{slot: slot, ptr: tgt, exp: world.Clone(tgt.Elem()), op: i, twin: twin, twinExp: world.Clone(twin.Elem())})
 }
 
 func hasSpareCapacity(v reflect.Value, depth int) bool {
@@ -260,6 +284,22 @@ func hasSpareCapacity(v reflect.Value, depth int) bool {
 // expected copy.
 func (t *taskState) recheck(i int, po *prepOp, why string) {
 	for _, lv := range t.live {
+		if t.x.prop == "C19" {
+			// only what interning adds is C19's: an interned field that no longer
+			// holds what it held when the call returned, while the same field
+			// without the option (decoded from the same buffer) is intact
+			if !lv.twin.IsValid() {
+				continue
+			}
+			if ok, path := world.DiffInterned(lv.ptr.Elem(), lv.twinExp); !ok {
+				if ok2, _ := world.Equal(lv.twin.Elem(), lv.twinExp); ok2 {
+					t.fail(i, po, "alias", fmt.Sprintf("interned string decoded by op %d changed %s: %s", lv.op, why, path))
+					return
+				}
+				t.probe("other_property:non_interned_twin_changed_too")
+			}
+			continue
+		}
 		if ok, path := world.Equal(lv.ptr.Elem(), lv.exp); !ok {
 			t.fail(i, po, "alias", fmt.Sprintf("value decoded by op %d changed %s, at %s", lv.op, why, path))
 			return
